@@ -41,6 +41,18 @@ def run(name, also=None):
     }
 
 
+def save_one(key, r):
+    """merge one result into results.json under a lock (several builders may run this tool at once)"""
+    import fcntl
+    with open(RESULTS + ".lock", "w") as lk:
+        fcntl.flock(lk, fcntl.LOCK_EX)
+        cur = json.load(open(RESULTS)) if os.path.exists(RESULTS) else {}
+        cur[key] = r
+        tmp = RESULTS + ".tmp"
+        json.dump(cur, open(tmp, "w"), indent=1, sort_keys=True)
+        os.replace(tmp, RESULTS)
+
+
 def main():
     args = sys.argv[1:]
     j = 3
@@ -68,11 +80,12 @@ def main():
                 r["expected"] = "caught"
                 r["ok"] = r["caught"]
             res[key] = r
+            save_one(key, r)
             print("%-40s %s %s %s %.0fs" % (key, pid, ("SILENT" if r["ok"] else "FALSE-ALARM") if name.startswith("control-") else
                                             "CAUGHT" if r["caught"] else ("NOAPPLY" if not r["applies"] else "MISSED"),
                                             "" if r["concrete"] or not r["caught"] else "(no concrete input)", r["wall_s"]))
             sys.stdout.flush()
-            json.dump(res, open(RESULTS, "w"), indent=1, sort_keys=True)
+    res = json.load(open(RESULTS)) if os.path.exists(RESULTS) else res
     bad = [k for k, v in res.items() if not v.get("ok", v.get("caught"))]
     print("total %d, as expected %d, not as expected: %s" % (len(res), len(res) - len(bad), bad))
 
